@@ -933,6 +933,192 @@ pub fn check_c20_async_union(case: &Case, order: (usize, u64, u32), acc: &mut Ac
     }
 }
 
+
+/// Requests that are in flight (or were abandoned) on a bare SolverCache: the availability query must
+/// stay "hinted or already fetched" while a request is pending and after its future was dropped, a
+/// second caller must share the pending request instead of asking the provider again, and an
+/// abandoned request must not block or poison later ones. Every step is taken by hand (the futures
+/// are polled with a no-op waker, the provider's answers are released one at a time).
+pub fn check_c20_inflight(case: &Case, order: (usize, u64, u32), acc: &mut Acc) {
+    use crate::sched::{Controller, Policy};
+    use std::future::Future;
+    use std::task::{Context, Poll};
+    let u = &case.u;
+    let waker = futures::task::noop_waker();
+    let bad = |acc: &mut Acc, sig: &str, what: String| {
+        acc.violation(viol("C20", sig, what, json!({"kind": "c20-inflight", "case": case, "universe": case.u.describe(&case.p)}), order));
+    };
+    // scenario x subject: 0 complete, 1 drop then ask again, 2 a second caller joins while pending
+    for scenario in 0..3 {
+        for s in 0..u.solvs.len() as Id {
+            let ctl = Controller::new(vec![], Policy::Fifo, false);
+            let mut prov = Prov::new(u);
+            prov.ctl = Some(ctl.clone());
+            prov.mask = K_CANDS | K_DEPS;
+            let log = prov.log.clone();
+            let cache = SolverCache::new(prov);
+            let mut cx = Context::from_waker(&waker);
+            acc.evaluations += 1;
+            acc.count("inflight_scenarios");
+            let deps_calls = |log: &std::rc::Rc<std::cell::RefCell<Vec<Ev>>>| log.borrow().iter().filter(|e| matches!(**e, Ev::Deps(x) if x == s)).count();
+            let mut f1 = Box::pin(cache.get_or_cache_dependencies(SolvableId(s)));
+            if f1.as_mut().poll(&mut cx).is_ready() {
+                bad(acc, "inflight:not-parked", format!("get_or_cache_dependencies({s}) completed although the provider has not answered"));
+                continue;
+            }
+            if cache.are_dependencies_available_for(SolvableId(s)) {
+                bad(acc, "availability:in-flight", format!("are_dependencies_available_for({s}) is true while the first request for its dependencies is still pending (package not fetched, so not hinted)"));
+            }
+            match scenario {
+                0 => {
+                    ctl.release_at(0);
+                    match f1.as_mut().poll(&mut cx) {
+                        Poll::Ready(Ok(_)) => {}
+                        _ => bad(acc, "inflight:not-completed", format!("get_or_cache_dependencies({s}) did not complete after the provider answered")),
+                    }
+                    if !cache.are_dependencies_available_for(SolvableId(s)) {
+                        bad(acc, "availability:fetched", format!("are_dependencies_available_for({s}) is false after its dependencies were fetched"));
+                    }
+                }
+                1 => {
+                    drop(f1);
+                    if cache.are_dependencies_available_for(SolvableId(s)) {
+                        bad(acc, "availability:abandoned", format!("are_dependencies_available_for({s}) is true although the only request for its dependencies was dropped before the provider answered"));
+                    }
+                    let mut f2 = Box::pin(cache.get_or_cache_dependencies(SolvableId(s)));
+                    let mut done = f2.as_mut().poll(&mut cx).is_ready();
+                    let mut steps = 0;
+                    while !done && steps < 4 {
+                        if !ctl.release_at(0) {
+                            break;
+                        }
+                        done = f2.as_mut().poll(&mut cx).is_ready();
+                        steps += 1;
+                    }
+                    if !done {
+                        bad(acc, "inflight:blocked-by-abandoned", format!("after an abandoned request, get_or_cache_dependencies({s}) never completes"));
+                    } else if !cache.are_dependencies_available_for(SolvableId(s)) {
+                        bad(acc, "availability:fetched", format!("are_dependencies_available_for({s}) is false after its dependencies were fetched"));
+                    }
+                }
+                _ => {
+                    let mut f2 = Box::pin(cache.get_or_cache_dependencies(SolvableId(s)));
+                    if f2.as_mut().poll(&mut cx).is_ready() {
+                        bad(acc, "inflight:not-parked", format!("second get_or_cache_dependencies({s}) completed although the provider has not answered"));
+                    }
+                    if deps_calls(&log) != 1 {
+                        bad(acc, "provider-asked-twice:in-flight", format!("get_dependencies({s}) was called {} times for two concurrent cache queries", deps_calls(&log)));
+                    }
+                    ctl.release_at(0);
+                    let a = f1.as_mut().poll(&mut cx);
+                    let b = f2.as_mut().poll(&mut cx);
+                    match (a, b) {
+                        (Poll::Ready(Ok(x)), Poll::Ready(Ok(y))) => {
+                            if !std::ptr::eq(x, y) {
+                                bad(acc, "inflight:different-answers", format!("two concurrent queries for the dependencies of {s} returned different objects"));
+                            }
+                        }
+                        _ => {
+                            // the second may need the (wrongly issued) second provider answer
+                            bad(acc, "inflight:waiter-not-woken", format!("after the provider answered, a concurrent query for the dependencies of {s} is still pending"));
+                        }
+                    }
+                }
+            }
+        }
+        for n in 0..u.names.len() as Id {
+            let ctl = Controller::new(vec![], Policy::Fifo, false);
+            let mut prov = Prov::new(u);
+            prov.ctl = Some(ctl.clone());
+            prov.mask = K_CANDS | K_DEPS;
+            let log = prov.log.clone();
+            let cache = SolverCache::new(prov);
+            let mut cx = Context::from_waker(&waker);
+            acc.evaluations += 1;
+            acc.count("inflight_scenarios");
+            let cands: Vec<Id> = u.names[n as usize].cands.clone();
+            let all_of_name: Vec<Id> = (0..u.solvs.len() as Id).filter(|&s| u.solvs[s as usize].name == n).collect();
+            let mut f1 = Box::pin(cache.get_or_cache_candidates(NameId(n)));
+            if f1.as_mut().poll(&mut cx).is_ready() {
+                bad(acc, "inflight:not-parked", format!("get_or_cache_candidates({n}) completed although the provider has not answered"));
+                continue;
+            }
+            for &s in &all_of_name {
+                if cache.are_dependencies_available_for(SolvableId(s)) {
+                    bad(acc, "availability:in-flight", format!("are_dependencies_available_for({s}) is true before the candidates of its package have arrived"));
+                }
+            }
+            let finish = |acc: &mut Acc, cache: &SolverCache<Prov>| {
+                for &s in &all_of_name {
+                    let want = is_hinted(u, s);
+                    if cache.are_dependencies_available_for(SolvableId(s)) != want {
+                        bad(acc, "availability", format!("are_dependencies_available_for({s}) = {} after the candidates arrived, hinted = {want}", !want));
+                    }
+                }
+            };
+            match scenario {
+                0 => {
+                    ctl.release_at(0);
+                    match f1.as_mut().poll(&mut cx) {
+                        Poll::Ready(Ok(c)) => {
+                            if c.candidates.iter().map(|s| s.0).collect::<Vec<_>>() != cands {
+                                bad(acc, "candidates", format!("candidates of {n} differ from the provider's list"));
+                            }
+                        }
+                        _ => bad(acc, "inflight:not-completed", format!("get_or_cache_candidates({n}) did not complete after the provider answered")),
+                    }
+                    finish(acc, &cache);
+                }
+                1 => {
+                    drop(f1);
+                    for &s in &all_of_name {
+                        if cache.are_dependencies_available_for(SolvableId(s)) {
+                            bad(acc, "availability:abandoned", format!("are_dependencies_available_for({s}) is true although the request for its package's candidates was dropped"));
+                        }
+                    }
+                    let mut f2 = Box::pin(cache.get_or_cache_candidates(NameId(n)));
+                    let mut done = f2.as_mut().poll(&mut cx).is_ready();
+                    let mut steps = 0;
+                    while !done && steps < 4 {
+                        if !ctl.release_at(0) {
+                            break;
+                        }
+                        done = f2.as_mut().poll(&mut cx).is_ready();
+                        steps += 1;
+                    }
+                    if !done {
+                        bad(acc, "inflight:blocked-by-abandoned", format!("after an abandoned request, get_or_cache_candidates({n}) never completes"));
+                    } else {
+                        finish(acc, &cache);
+                    }
+                }
+                _ => {
+                    let mut f2 = Box::pin(cache.get_or_cache_candidates(NameId(n)));
+                    if f2.as_mut().poll(&mut cx).is_ready() {
+                        bad(acc, "inflight:not-parked", format!("second get_or_cache_candidates({n}) completed although the provider has not answered"));
+                    }
+                    let calls = log.borrow().iter().filter(|e| matches!(**e, Ev::Cands(x) if x == n)).count();
+                    if calls != 1 {
+                        bad(acc, "provider-asked-twice:in-flight", format!("get_candidates({n}) was called {calls} times for two concurrent cache queries"));
+                    }
+                    ctl.release_at(0);
+                    let a = f1.as_mut().poll(&mut cx);
+                    let b = f2.as_mut().poll(&mut cx);
+                    match (a, b) {
+                        (Poll::Ready(Ok(x)), Poll::Ready(Ok(y))) => {
+                            if !std::ptr::eq(x, y) {
+                                bad(acc, "inflight:different-answers", format!("two concurrent queries for the candidates of {n} returned different objects"));
+                            }
+                        }
+                        _ => bad(acc, "inflight:waiter-not-woken", format!("after the provider answered, a concurrent query for the candidates of {n} is still pending")),
+                    }
+                    finish(acc, &cache);
+                }
+            }
+        }
+    }
+}
+
 /// One package with many candidates: favored rotation and order stability beyond small sizes.
 pub fn check_c20_wide(acc: &mut Acc) {
     for n in [5usize, 21, 33, 64] {
@@ -1017,6 +1203,10 @@ pub fn run_c20(ctx: &Ctx) -> i32 {
             if !case.u.unions.is_empty() {
                 check_c20_async_union(case, (fi, idx, 2), acc);
             }
+            check_c20_inflight(case, (fi, idx, 3), acc);
+            if hinted.u != case.u {
+                check_c20_inflight(&hinted, (fi, idx, 4), acc);
+            }
         });
         states += acc.get("cases");
         transitions += acc.get("call_sequences");
@@ -1043,6 +1233,11 @@ pub fn replay_c20(v: &serde_json::Value) -> Vec<String> {
     if v["kind"] == "c20-async" {
         let mut acc = Acc::default();
         check_c20_async_union(&case, (0, 0, 0), &mut acc);
+        return acc.violations.iter().map(|v| v.signature.clone()).collect();
+    }
+    if v["kind"] == "c20-inflight" {
+        let mut acc = Acc::default();
+        check_c20_inflight(&case, (0, 0, 0), &mut acc);
         return acc.violations.iter().map(|v| v.signature.clone()).collect();
     }
     if v["kind"] == "c20" {
